@@ -6,6 +6,7 @@ import (
 	"context"
 	"io"
 	"net/http"
+	"sync"
 )
 
 type verifSent struct {
@@ -20,6 +21,7 @@ type verifSent struct {
 
 // verifNet records every outgoing request and answers it with a scripted response.
 type verifNet struct {
+	mu      sync.Mutex
 	sent    []*verifSent
 	respond func(s *verifSent) (*http.Response, error)
 }
@@ -30,7 +32,9 @@ func (n *verifNet) record(ctx context.Context, req *http.Request, viaHandler boo
 		b, _ := io.ReadAll(req.Body)
 		s.body = b
 	}
+	n.mu.Lock()
 	n.sent = append(n.sent, s)
+	n.mu.Unlock()
 	return s
 }
 
